@@ -291,6 +291,12 @@ func paramOfFnValue(v ssa.Value) *ssa.Parameter {
 // ---------- frame inference ----------
 
 func (g *Gen) storeFrame(fn *ssa.Function, addr ssa.Value, t types.Type, fr *Frame) {
+	g.storeFrameX(fn, addr, t, fr, false)
+}
+
+// storeFrameX: forLoop asks for the arrays a store changes as seen by the next iteration of an enclosing loop (where
+// objects allocated by this function do count); otherwise as seen by callers.
+func (g *Gen) storeFrameX(fn *ssa.Function, addr ssa.Value, t types.Type, fr *Frame, forLoop bool) {
 	// writes into objects freshly allocated by this function are invisible to callers
 	root := addr
 	for {
@@ -306,8 +312,7 @@ func (g *Gen) storeFrame(fn *ssa.Function, addr ssa.Value, t types.Type, fr *Fra
 		}
 		break
 	}
-	if a, ok := root.(*ssa.Alloc); ok {
-		_ = a
+	if _, ok := root.(*ssa.Alloc); ok && !forLoop {
 		return
 	}
 	ti := g.ti
@@ -402,6 +407,20 @@ func (g *Gen) callFrame(c *ssa.CallCommon, forCallers bool) *Frame {
 			fc := &FnCtx{g: g}
 			h, vv, l := fc.mapArrays(mt)
 			fr.arrs[h], fr.arrs[vv], fr.arrs[l] = true, true, true
+		case "append":
+			// in place (len+k <= cap) the new elements are written behind the slice in its own backing array: visible to
+			// whoever holds a longer slice of that array, unless the slice was made by this function
+			if st, ok := c.Args[0].Type().Underlying().(*types.Slice); ok && !(forCallers && g.isFreshValue(c.Args[0], 0)) {
+				var ls []Leaf
+				g.ti.leaves(st.Elem(), 0, "", &ls)
+				for _, l := range ls {
+					g.regArr(l.arr, l.sort)
+					fr.arrs[l.arr] = true
+				}
+				if len(ls) == 0 || !isStructLike(st.Elem()) {
+					fr.arrs[g.regArr(g.ti.cellArray(st.Elem()), g.ti.sortOf(st.Elem()))] = true
+				}
+			}
 		case "copy":
 			if st, ok := c.Args[0].Type().Underlying().(*types.Slice); ok {
 				var ls []Leaf
@@ -1252,8 +1271,8 @@ func (fc *FnCtx) execAppend(st *State, in ssa.Instruction, c *ssa.CallCommon, ar
 			fresh = fmt.Sprintf("(ite (and (= (rbase ar) (rbase %s)) (<= 0 (roff ar)) (< (roff ar) (* %s %d))) (select %s (mkref (rbase (sarr %s)) (+ (roff (sarr %s)) (roff ar)))) (select %s ar))", nb, n1, sz, old, s, s, old)
 		}
 		lam := fmt.Sprintf("(lambda ((ar Ref)) (ite %s %s %s))", inPlaceCond, inplace, fresh)
-		nv := fc.q.freshConst(l.arr+"@app", fc.g.arrSort[l.arr])
-		fc.q.assert(implies(st.reach, eq(nv, lam)))
+		// a definition (inlined by the solver) rather than an equality between arrays
+		nv := fc.q.define(l.arr+"@app", fc.g.arrSort[l.arr], lam)
 		st.heap[l.arr] = nv
 		st.bounds[l.arr] = st.alloc()
 	}
